@@ -89,7 +89,7 @@ def forms(rng, x):
 
 
 def gen_case(rng, kind, wf):
-    pool = rng.sample(G.POOL_MIXED if rng.random() < 0.4 else G.POOL_PLAIN[:60], 40)
+    pool = rng.sample(G.POOL_MIXED if rng.random() < 0.4 else G.POOL_PLAIN[:150], 90)
     ncur, nobs = rng.randint(0, 8), rng.randint(0, 4)
     terms, used = [], []
     fresh = iter(pool)
@@ -126,6 +126,8 @@ def gen_case(rng, kind, wf):
             calls += [['get', f], ['in', f], ['name', f]]
     for bad in (['other', 'none'], ['other', 'int'], ['str', 'nocurie'], ['other', 'tuple']):
         calls += [['get', bad], ['in', bad], ['name', bad]]
+    # the listings again, AFTER successful and unsuccessful lookups
+    calls += [['term_ids'], ['len'], ['terms']]
     return {'kind': kind, 'terms': terms, 'calls': calls, 'wf': wf}
 
 
